@@ -2,3 +2,4 @@ pub mod archive;
 pub mod image;
 pub mod strings;
 pub mod text;
+pub mod lz;
